@@ -48,6 +48,10 @@ def cases(draw):
     # the restriction options are applied behind the reader: they must hold whatever channel delivers the document
     # (cap: only readers that keep the document order; namespaces: also an in-memory rdflib Graph)
     case["chan"] = draw(st.sampled_from(common.LINE_CHANNELS + (["rdflib", "rdflib"] if mode == "ns" else [])))
+    if mode == "cap" and draw(st.integers(0, 3)) == 0:
+        dd = draw(common.dups(g, type_only=True))
+        if dd and not common.restated_values(dict(case, dups=dd)):
+            case["dups"] = dd         # the document re-states typing triples: still the same graph, the same first k instances
     return case
 
 
@@ -85,11 +89,15 @@ def _check(case, chan_dir):
     kw, triples = common.base_kwargs(case)
     chan = case.get("chan", "raw")
     if chan != "raw":
-        kw = common.deliver(kw, triples, chan, chan_dir)
+        kw = common.deliver(kw, common.doc_triples(case, triples), chan, chan_dir)
+    if case.get("dups"):
+        labels_extra = {"restated-typing-statements"}
+    else:
+        labels_extra = set()
     cfg = case["cfg"]
     inst_prop = case["g"]["inst_prop"]
     thr = case["thr"]
-    labels = {"mode:" + case["mode"], "chan:" + chan}
+    labels = {"mode:" + case["mode"], "chan:" + chan} | labels_extra
     if case["mode"] == "cap":
         k = case["cap"]
         kw_cap = dict(kw, instances_cap=k)
@@ -100,8 +108,10 @@ def _check(case, chan_dir):
             cdoc = oracle.read_canon(text, inst_prop)
         except oracle.shexc.ShExCError:
             return discard("unparsable-output")
-        full = common.selection(case, triples)
-        sel = common.selection(case, triples, cap=k)
+        # document order = order of the statements of the document (re-stated typing triples included)
+        doc_order = common.doc_triples(case, triples)
+        full = common.selection(case, doc_order)
+        sel = common.selection(case, doc_order, cap=k)
         label_of = common.labels_for(sel)
         if len(set(label_of.values())) != len(label_of):
             return discard("label-collision")
